@@ -218,6 +218,13 @@ func verifySweep(c *rt.Ctx, prop string) {
 							c.Good(k, call.Pos(), "exempt: "+ex)
 							continue
 						}
+						// the function is reached through function values (a table of steps, a method expression)
+						// only from functions for which the site would be exempt: the callers are not positively
+						// known, so neither verdict has positive evidence
+						if ex, ok := vsMaybeExemptFor(fn, callee, fns, 0, map[*ssa.Function]bool{}); ok && st == 2 {
+							c.Unsure(k, call.Pos(), why+"; but the function is only referenced, as a function value, from code for which this is exempt ("+ex+"), and calls through function values cannot be followed")
+							continue
+						}
 					}
 					switch st {
 					case 0:
@@ -293,6 +300,197 @@ func vsExemptFor(fn *ssa.Function, call *ssa.Call, callee string, pkgFns []*ssa.
 		return "", false
 	}
 	return why + " (helper only used by the exempt caller)", true
+}
+
+// vsMaybeExemptFor is vsExemptFor with uses as a function value followed: a function stored into a package-level
+// table stands for "possibly called by every function that reads the table", a function used as a value inside g for
+// "possibly called by g"; thunks of method expressions and bound methods stand for their method. True only when at
+// least one such user exists and every user (static callers included) is exempt or possibly exempt; exported
+// functions have unknown callers.
+func vsMaybeExemptFor(fn *ssa.Function, callee string, pkgFns []*ssa.Function, d int, seen map[*ssa.Function]bool) (string, bool) {
+	if why, ok := vsExempt[an.FuncName(fn)+" → "+callee]; ok {
+		return why, true
+	}
+	if d > 6 || seen[fn] {
+		return "", false
+	}
+	seen[fn] = true
+	if fn.Parent() != nil {
+		return vsMaybeExemptFor(fn.Parent(), callee, pkgFns, d+1, seen)
+	}
+	if fn.Object() != nil && fn.Object().Exported() {
+		return "", false
+	}
+	same := func(f *ssa.Function) bool {
+		if f == nil {
+			return false
+		}
+		if an.Orig(f) == an.Orig(fn) {
+			return true
+		}
+		if f.Synthetic != "" && f.Blocks != nil {
+			for _, in := range an.Instrs(f, false) {
+				if ci, ok := in.(ssa.CallInstruction); ok && an.Orig(ci.Common().StaticCallee()) == an.Orig(fn) {
+					return true
+				}
+			}
+		}
+		return false
+	}
+	var users []*ssa.Function
+	var pkg *ssa.Package
+	if fn.Pkg != nil {
+		pkg = fn.Pkg
+	}
+	scan := append([]*ssa.Function{}, pkgFns...)
+	if pkg != nil {
+		if ini := pkg.Func("init"); ini != nil {
+			scan = append(scan, ini)
+		}
+	}
+	for _, g := range scan {
+		for _, in := range an.Instrs(g, false) {
+			uses := false
+			for _, op := range an.Operands(in) {
+				if f, ok := op.(*ssa.Function); ok && same(f) {
+					uses = true
+				}
+			}
+			if !uses {
+				continue
+			}
+			if g.Name() != "init" || g.Synthetic == "" {
+				users = append(users, g)
+				continue
+			}
+			// package initialiser: the value goes into a package-level variable; its readers are the users
+			found := false
+			into := vsGlobalsOf(in)
+			for _, m := range pkg.Members {
+				gl, ok := m.(*ssa.Global)
+				if !ok || !vsHoldsFunc(gl.Type(), 0) || (len(into) > 0 && !into[gl]) {
+					continue
+				}
+				for _, h := range pkgFns {
+					for _, hin := range an.Instrs(h, false) {
+						for _, op := range an.Operands(hin) {
+							if op == ssa.Value(gl) {
+								users = append(users, h)
+								found = true
+							}
+						}
+					}
+				}
+			}
+			if !found {
+				return "", false
+			}
+		}
+	}
+	if len(users) == 0 {
+		return "", false
+	}
+	why := ""
+	for _, g := range users {
+		if g == fn {
+			continue
+		}
+		w, ok := vsMaybeExemptFor(g, callee, pkgFns, d+1, seen)
+		if !ok {
+			return "", false
+		}
+		why = w
+	}
+	if why == "" {
+		return "", false
+	}
+	return why, true
+}
+
+// vsGlobalsOf: the package-level variables the value written by instruction in (a store into a composite literal
+// element, a map insertion) ends up in; empty when that cannot be told.
+func vsGlobalsOf(in ssa.Instruction) map[*ssa.Global]bool {
+	out := map[*ssa.Global]bool{}
+	root := func(a ssa.Value) ssa.Value {
+		for {
+			switch x := a.(type) {
+			case *ssa.FieldAddr:
+				a = x.X
+				continue
+			case *ssa.IndexAddr:
+				a = x.X
+				continue
+			}
+			return a
+		}
+	}
+	var work []ssa.Value
+	switch x := in.(type) {
+	case *ssa.Store:
+		work = append(work, root(x.Addr))
+	case *ssa.MapUpdate:
+		work = append(work, x.Map)
+	case ssa.Value:
+		work = append(work, x)
+	}
+	seen := map[ssa.Value]bool{}
+	for len(work) > 0 && len(seen) < 200 {
+		v := work[len(work)-1]
+		work = work[:len(work)-1]
+		if v == nil || seen[v] {
+			continue
+		}
+		seen[v] = true
+		if g, ok := v.(*ssa.Global); ok {
+			out[g] = true
+			continue
+		}
+		refs := v.Referrers()
+		if refs == nil {
+			continue
+		}
+		for _, r := range *refs {
+			switch y := r.(type) {
+			case *ssa.Store:
+				if y.Val == v {
+					work = append(work, root(y.Addr))
+				}
+			case *ssa.MapUpdate:
+				if y.Value == v {
+					work = append(work, y.Map)
+				}
+			case *ssa.Slice, *ssa.ChangeType, *ssa.Convert, *ssa.MakeInterface, *ssa.MakeClosure:
+				work = append(work, r.(ssa.Value))
+			}
+		}
+	}
+	return out
+}
+
+// vsHoldsFunc: does a value of type t (transitively) hold function values?
+func vsHoldsFunc(t types.Type, d int) bool {
+	if d > 6 {
+		return false
+	}
+	switch u := t.Underlying().(type) {
+	case *types.Signature:
+		return true
+	case *types.Slice:
+		return vsHoldsFunc(u.Elem(), d+1)
+	case *types.Array:
+		return vsHoldsFunc(u.Elem(), d+1)
+	case *types.Pointer:
+		return vsHoldsFunc(u.Elem(), d+1)
+	case *types.Map:
+		return vsHoldsFunc(u.Elem(), d+1)
+	case *types.Struct:
+		for i := 0; i < u.NumFields(); i++ {
+			if vsHoldsFunc(u.Field(i).Type(), d+1) {
+				return true
+			}
+		}
+	}
+	return false
 }
 
 // ---------------------------------------------------------------------------------------------------------------
